@@ -7,7 +7,7 @@ import (
 
 	"github.com/Comcast/sheens/core"
 	"github.com/Comcast/sheens/match"
-	"verif/internal/jsongen"
+	"verif/lib/jsongen"
 )
 
 // ErrToken stands for the (unspecified) text of an error.
